@@ -107,6 +107,9 @@ type Held struct {
 	Times  uint64 `json:"times"`
 	Series int64  `json:"series"`
 	Total  int64  `json:"total"`
+	// LastAgoS: the sidecar reports the last scrape of this copy as this many seconds ago (0 with Times > 0: a
+	// moment ago; a target with a long interval, or a Prometheus that hangs, reports minutes)
+	LastAgoS int `json:"lastAgoS,omitempty"`
 }
 
 // ShardSpec is the health script and the report of one shard.
@@ -254,6 +257,10 @@ func (f *fakeShard) getCore(path string) (data interface{}, fail error) {
 			if h.Health == "down" {
 				m[h.Hash].LastError = "scripted failure"
 			}
+			if h.Times > 0 || h.Health != "unknown" {
+				m[h.Hash].LastScrape = time.Now().Add(-time.Duration(h.LastAgoS)*time.Second - 50*time.Millisecond)
+				m[h.Hash].LastScrapeDuration = 0.02
+			}
 		}
 		data = m
 	case strings.HasPrefix(path, "/api/v1/shard/runtimeinfo/"):
@@ -376,6 +383,9 @@ func (wireRT) RoundTrip(req *http.Request) (*http.Response, error) {
 		shape = "503-error"
 	}
 	switch shape {
+	case "400-error":
+		// what a sidecar started with --config.file answers to a pushed configuration
+		return wireResp(req, 400, string(errBody)), nil
 	case "503-error":
 		return wireResp(req, 503, string(errBody)), nil
 	case "500-success":
